@@ -98,6 +98,18 @@ Theorem engine_no_panic : forall es,
 Proof. exact no_panic. Qed.
 Print Assumptions engine_no_panic.
 
+(* Express = insert, then emit: one EExpress step puts the entry into the PIT and hands the Interest to the face (OSendInt);
+   an answer — even one the face feeds back while Send is still on the stack — is a later event and finds the entry: a
+   Data arriving right after the emit step resolves that very Interest if it satisfies it. *)
+Theorem reply_during_send_is_matched : forall es nm cbp dig life dn dd,
+  is_nil nm && is_none dig = false ->
+  let s := final init es in
+  satisfies (mkSint (npid s) nm cbp dig (now s + lifetime life)%N) dn dd = true ->
+  obs_at (es ++ [EExpress nm cbp dig life; EData dn dd]) (length es) = [OSendInt (npid s)] /\
+  In (OCb (npid s) (RData dn dd)) (obs_at (es ++ [EExpress nm cbp dig life; EData dn dd]) (S (length es))).
+Proof. exact reply_during_send_matched. Qed.
+Print Assumptions reply_during_send_is_matched.
+
 (* Obligation on the timer interface (ndn.Timer.Schedule's cancel function): cancelling never blocks and never waits for an
    event that has already started. In the model: cancel changes at most the state of the named timers, only Sched ->
    Cancelled, and a timer that has fired stays Fired (its closure runs later and finds its entry gone). The harness stream
